@@ -1,3 +1,11 @@
+//! hexv — runtime monitors for the hexane column library (C34, C35).
+mod c34;
+mod c35;
+mod mutate;
+mod raw;
+mod tgt;
+mod vals;
+
 fn main() {
-    println!("placeholder");
+    amv::cli_main(vec![Box::new(c34::C34), Box::new(c35::C35)])
 }
